@@ -42,14 +42,23 @@ def scratch(prefix="verif-"):
 
 
 # --------------------------------------------------------------------------- Go side
+def sync_gomod():
+    """harness/go.mod = /repo/go.mod's requirements + replace core => /repo (offline: nothing to resolve)."""
+    src = open(os.path.join(REPO, "go.mod")).read()
+    src = src.replace("module github.com/projecteru2/core", "module verif/harness", 1)
+    src += "\nrequire github.com/projecteru2/core v0.0.0\n\nreplace github.com/projecteru2/core => %s\n" % REPO
+    p = os.path.join(HARNESS, "go.mod")
+    if not os.path.exists(p) or open(p).read() != src:
+        open(p, "w").write(src)
+    shutil.copy(os.path.join(REPO, "go.sum"), os.path.join(HARNESS, "go.sum"))
+
+
 def build_driver(pkg):
     """(Re)build the driver test binary of harness package `pkg` from /repo's working tree."""
     os.makedirs(os.path.join(CACHE, "bin"), exist_ok=True)
     out = os.path.join(CACHE, "bin", pkg.replace("/", "_") + ".test")
     env = dict(os.environ, **GOENV)
-    gosum = os.path.join(HARNESS, "go.sum")
-    if not os.path.exists(gosum):
-        shutil.copy(os.path.join(REPO, "go.sum"), gosum)
+    sync_gomod()
     t0 = time.time()
     p = subprocess.run(["go", "test", "-c", "-tags", "verif", "-vet=off", "-o", out, "./" + pkg],
                        cwd=HARNESS, env=env, stdout=subprocess.PIPE, stderr=subprocess.STDOUT, text=True)
@@ -204,8 +213,25 @@ def emit_inputs(r, path, tag="INPUT"):
     return n
 
 
-def validate_trace(module, cfg, trace, env=None, timeout=3600, deque=False, heap="8g"):
-    """Trace validation. Returns (violations:list[dict], accepted:int lines). Rejection => Broken."""
+def validate_trace(module, cfg, trace, env=None, timeout=3600, deque=False, heap="8g", chunk=None):
+    """Trace validation. Returns (violations:list[dict], TLCResult). Rejection => Broken.
+    chunk=N validates a stateless trace N lines at a time (bounded memory); line numbers are global."""
+    if chunk:
+        lines = read_lines(trace)
+        if len(lines) > chunk:
+            allv, last = [], None
+            for off in range(0, len(lines), chunk):
+                part = trace + ".part"
+                with open(part, "w") as f:
+                    f.write("\n".join(lines[off:off + chunk]) + "\n")
+                try:
+                    v, last = validate_trace(module, cfg, part, env=env, timeout=timeout, deque=deque, heap=heap)
+                finally:
+                    os.remove(part)
+                for x in v:
+                    x["line"] = x.get("line", 0) + off
+                allv += v
+            return allv, last
     e = {"VERIF_TRACE": trace}
     e.update(env or {})
     r = tlc(module, cfg, env=e, workers=1, timeout=timeout, deque=deque, heap=heap)
